@@ -168,9 +168,29 @@ def gen_stream_like(rng, prop="C15", oracles=None):
             "fs": {}, "tasks": [{"parsers": parsers, "matchers": [], "compilers": compilers, "ops": ops}], "stream_like": True}
 
 
+def gen_tokcli(rng):
+    """The token-listing script over several files (one parser + TokenFormatterBuilder reused by the script itself)."""
+    files, argv, labels = {}, [], []
+    for i in range(rng.randint(2, 5)):
+        label, text = workload.pick_doc(rng, "en", p_pool=0.6, p_corpus=0.1, p_damage=0.15)
+        if text.count("\n") > 60:
+            text = workload.truncate_at(text, rng.randint(5, 60))
+        p = "/simfs/tok/f%d.feature" % i
+        files[p] = workload.restyle(rng, text).replace("\ufeff", "")
+        argv.append(p)
+        labels.append(label)
+    if rng.random() < 0.5:
+        argv.append(argv[0])
+    cfg = _cfg(rng)
+    return {"scenario": "reuse", "prop": "C15", "labels": labels, "oracles": ORACLES, "cfg": cfg, "gens": 0, "fs": {"files": files},
+            "tasks": [{"parsers": [], "matchers": [], "compilers": [], "ops": [{"op": "tokcli", "argv": argv}]}]}
+
+
 def gen_reuse(rng):
     if rng.random() < 0.12:
         return gen_stream_like(rng)
+    if rng.random() < 0.05:
+        return gen_tokcli(rng)
     files = {}
     ngens = rng.randint(1, 2)
     task, labels = _gen_task(rng, 0, ngens, rng.randint(2, 12), files, "t0")
